@@ -24,7 +24,7 @@ ASSUMPTIONS = [
     'say whose block counts); what is judged is that every flag is restored once all blocks have exited',
     're-assigning the identical object may raise or not; only "the held object did not change" is required',
 ]
-REQUIRED = {'copies_taken_inside_blocks': 12, 'async_deliveries_checked': 15, 'rebinds_attempted_by_watcher_during_delivery': 6, 'class_relock_cases': 12, 'relock_failures_injected': 15, 'pending_references_offered_to_constants': 20, 'linked_constant_failed_deliveries': 20, 'forbidden_attempts': 3000, 'blocks': 500, 'blocks_raised': 100, 'flag_probes': 2000, 'ctor_constant_reference': 50,
+REQUIRED = {'copies_taken_inside_blocks': 12, 'async_deliveries_checked': 15, 'rebinds_attempted_by_watcher_during_delivery': 4, 'class_relock_cases': 12, 'relock_failures_injected': 12, 'pending_references_offered_to_constants': 20, 'linked_constant_failed_deliveries': 20, 'forbidden_attempts': 3000, 'blocks': 500, 'blocks_raised': 100, 'flag_probes': 2000, 'ctor_constant_reference': 50,
             'ctor_constant_pending_reference': 50, 'library_attempts': 100, 'async_attempts': 100, 'observer_calls': 100, 'class_blocks': 50}
 
 _st = {}
